@@ -821,6 +821,35 @@ impl Line {
     }
 }
 
+/*
+ * Verification hook (cfg pkgsrc_verif only): expose the private line
+ * classifier so that an external harness can compare it with a formal model.
+ * Never compiled in normal builds.
+ */
+#[cfg(pkgsrc_verif)]
+#[doc(hidden)]
+pub fn verif_line(bytes: &[u8]) -> String {
+    fn hex(b: &[u8]) -> String {
+        if b.is_empty() {
+            return "-".to_string();
+        }
+        b.iter().map(|x| format!("{:02x}", x)).collect()
+    }
+    match Line::from_bytes(bytes) {
+        Line::RcsId(s) => format!("rcsid:{}", hex(s.as_bytes())),
+        Line::Size(p, n) => {
+            format!("size:{}:{}", hex(p.as_os_str().as_bytes()), n)
+        }
+        Line::Checksum(d, p, h) => format!(
+            "checksum:{}:{}:{}",
+            d,
+            hex(p.as_os_str().as_bytes()),
+            hex(h.as_bytes())
+        ),
+        Line::None => "none".to_string(),
+    }
+}
+
 #[cfg(test)]
 mod tests {
     use super::*;
